@@ -606,3 +606,10 @@ GROUPS["g16"] += [
       "                output[word.span.start - start_index].to_uppercase().next().unwrap();",
       "R-C18-caseonly:make_title_case:store"),
 ]
+
+GROUPS["g16"] += [
+    # any word that begins with a suffix is taken for one again (F14)
+    E("c17-suffix-prefix-only", ["C17"], "harper-core/src/number.rs",
+      "        if chars.len() != 2 {\n            return None;\n        }", "        if chars.len() < 2 {\n            return None;\n        }",
+      "R-C17-whole:NumberSuffix::from_chars"),
+]
